@@ -102,29 +102,30 @@ class JSONPathRecursiveDescentSegment(JSONPathSegment):
         depth: int = 1,
     ) -> Iterable[JSONPathNode]:
         """Nondeterministic node traversal."""
-        # (node, depth) tuples
+        # (node, depth) tuples. _depth_ is the nesting level of the node, as
+        # counted by `_visit`: the root is at level 1, its children at level 2.
         queue: Deque[Tuple[JSONPathNode, int]] = deque()
 
         # Visit the root node
+        self._check_depth(root, depth)
         yield root
 
         # Queue root's children
-        queue.extend([(child, depth) for child in _nondeterministic_children(root)])
+        queue.extend(
+            [(child, depth + 1) for child in _nondeterministic_children(root)]
+        )
 
         while queue:
             node, depth = queue.popleft()
+            self._check_depth(node, depth)
             yield node
-
-            if depth >= self.env.max_recursion_depth:
-                raise JSONPathRecursionError(
-                    "recursion limit exceeded", token=self.token
-                )
 
             # Randomly choose to visit child nodes now or queue them for later?
             visit_children = random.choice([True, False])  # noqa: S311
 
             for child in _nondeterministic_children(node):
                 if visit_children:
+                    self._check_depth(child, depth + 1)
                     yield child
 
                     # Queue grandchildren by randomly interleaving them into the
@@ -146,6 +147,14 @@ class JSONPathRecursiveDescentSegment(JSONPathSegment):
                     )
                 else:
                     queue.append((child, depth + 1))
+
+    def _check_depth(self, node: JSONPathNode, depth: int) -> None:
+        """Raise if _node_ is a container nested deeper than the recursion limit."""
+        if (
+            isinstance(node.value, (dict, list))
+            and depth > self.env.max_recursion_depth
+        ):
+            raise JSONPathRecursionError("recursion limit exceeded", token=self.token)
 
     def __str__(self) -> str:
         return f"..[{', '.join(str(itm) for itm in self.selectors)}]"
